@@ -128,6 +128,8 @@ impl ReverseProxyListener {
             tx.send(buf).await.context("send")?;
         } else {
             let (tx, rx) = channel(100);
+            // the datagram that opens a session is the first datagram of that session
+            tx.send(buf).await.context("send")?;
             let io = setup_udp_session(self.target.clone(), self.bind, source, rx, false)
                 .context("setup session")?;
             self.sessions.insert(source, tx).await;
